@@ -2,10 +2,10 @@
 Model: spec/mpt (MPTCanon abstract judge; MPTImpl code-shaped rewrites of trie.go/batch.go; MPTProof proof
 soundness; MPTSim generator; MPTTrace validator).  Real code: mpt.Trie / mpt.TrieStore / mpt.VerifyProof driven
 by harness/c10mpt."""
+import bisect
 import copy
 import json
 import os
-import random
 
 import vlib
 
@@ -67,7 +67,6 @@ def run(ctx):
     fails = judge(ctx, trace, n)
     ctx.traces_validated += res.get("traces", 0)
     ctx.extra["trace_events"] = n
-    import bisect
     reported = {}
     for f in sorted(fails, key=lambda f: f["line"]):
         li = f["line"] - 1
@@ -89,7 +88,12 @@ def run(ctx):
             "history": slim(hist)})
     # 5. binding self-test: corrupted good traces must be rejected
     if not fails and not ctx.violations:
-        selftest(ctx, read_lines(trace, 0, 80000))
+        # sample for the self-test: the head of the trace (TLC behaviours) and its tail (random histories)
+        tail = [i for i in inits if i >= n - 50000]
+        sample = read_lines(trace, 0, min(30000, n))
+        if tail and tail[0] >= 30000:
+            sample += read_lines(trace, tail[0], n)
+        selftest(ctx, sample)
 
 
 def read_lines(path, lo, hi):
@@ -108,7 +112,7 @@ def judge(ctx, trace, n, chunk=60000):
     an init event, which re-initialises the specification) and the parts are judged in turn."""
     if n <= chunk:
         return ctx.trace_judge("mpt", "MPTTrace.tla", "Trace_MPT.cfg", trace, timeout=3000)
-    fails, part, base, lineno, k = [], [], 0, 0, 0
+    fails, part, base, k = [], [], 0, 0
 
     def flush_part():
         nonlocal part, base, k
